@@ -31,7 +31,8 @@ def run_s(rep, items, tier, kinds=None, wall_budget_s=None):
         if r.get("error"):
             rep.unreproduced("nlsym failed on skeleton %s: %s" % (r["name"], r["error"][-300:]))
             continue
-        fs = [f for f in r["findings"] if kinds is None or f["kind"] in kinds]
+        # heap-ledger findings belong to C03/C04 only (kinds lists them explicitly there)
+        fs = [f for f in r["findings"] if (kinds is None and f["kind"] != "ledger") or (kinds is not None and f["kind"] in kinds)]
         replayed += len(fs)
         conf = [f for f in fs if f["confirmed"]]
         for f in conf:
@@ -71,6 +72,8 @@ def run_s(rep, items, tier, kinds=None, wall_budget_s=None):
         "paths_beyond_step_bound": agg.get("diverged"),
         "undecided_queries": agg.get("undecided"),
         "typing_queries": agg.get("typing_queries"),
+        "path_witnesses_run_on_the_real_interpreter": agg.get("witnesses"),
+        "heap_ledger_audits": agg.get("ledger_audits"),
         "solver_queries": agg.get("queries"),
         "solver_s": round(agg.get("solver_s", 0.0), 1),
         "skeletons_truncated_by_budget": agg.get("truncated"),
@@ -176,8 +179,33 @@ def sessions(n, seed=0, rnd_n=0, rnd_len=5):
     return sk.fam_sessions_directed() + sk.fam_sessions(n) + (sk.fam_sessions_random(seed, rnd_n, rnd_len) if rnd_n else [])
 
 
+def gc_items(seed, tier):
+    """allocating programs for C03/C04: the gc family (heap shapes, collection points at every call depth, nested / shared / cyclic
+    results, abort-point sweeps), sequences (aliasing), calls, error programs, loops inside functions"""
+    from .nlsym import skeletons as sk
+    items = fams("gc", "sequences", "calls") + [x for x in fams("boundary", "builtins", "compose")]
+    items += [x for x in sk.fam_loop_bodies(2 if tier == "quick" else 3, contexts=("fn",))]
+    items += rnd(seed, 40 if tier == "quick" else 400)
+    return items
+
+
+GC_ASSUME = ["what the solver decides here: (1) Kani contracts on the real VM::run - the exact root slices handed to the collector at every collection point "
+             "(Return / ReturnValue), the constants offered to the collector when a run starts, the result taken out of it exactly once at Halt and nothing on an "
+             "error exit; Kani harnesses on the real gc.rs for single steps (constructors register, adoption of heap values only, untrace of a flat value, a rooted "
+             "float survives); (2) z3 explores every path of every allocating program (which objects are live at which collection / abort point follows from the path)",
+             "what is NOT decided by a solver: mark/sweep over arrays, cycles and several objects - gc.rs on a heap of >= 2 objects did not finish under CBMC in 900 s "
+             "even over a Vec<bool> model of bitvec (DESIGN.md 5.1). For these the REAL collector runs natively on one witness per explored path: a reclaimed-but-reachable "
+             "object shows as a wrong value (freed memory is overwritten before the result is read, the machine is dropped before the result is read), and the heap ledger "
+             "(counting global allocator) must balance after the caller released the result: +n = leak, -n = released twice",
+             "abort points are error-raising instructions selected by a symbolic hole (every value is a path), not an injected fault after every k-th instruction"]
+
+
 PROPS = {
     "C15": run_C15,
+    "C03": s_property("C03", "translation_validation", lambda seed: gc_items(seed, "quick"), lambda seed: gc_items(seed, "thorough"), k=True,
+                      kinds=("witness", "ledger", "unsafe"), extra_assume=GC_ASSUME),
+    "C04": s_property("C04", "translation_validation", lambda seed: gc_items(seed, "quick"), lambda seed: gc_items(seed, "thorough"), k=True,
+                      kinds=("ledger", "witness"), extra_assume=GC_ASSUME),
     "C08": run_C08,
     "C01": s_property("C01", "translation_validation",
                       lambda seed: fams("compose", "control", "calls", "scoping", "sequences", "builtins", "boundary", "gc", "undeclared") + op_forms_light() + exh(2) + loops(2) + rnd(seed, 60),
